@@ -426,8 +426,8 @@ pub fn harnesses() -> Vec<HarnessDef> {
   add("c07_move", vec!["C07", "C17"], "scheduler-moving operators (local forms): delivered sequence, prefix-on-error, never earlier than the delay", b7, Box::new(|t| c07_run(false, if t { 3 } else { 2 }, false)), 2_000_000, 40_000_000, true);
   add("c07_move_threads", vec!["C07"], "scheduler-moving operators (_threads forms)", b7, Box::new(|t| c07_run(true, if t { 3 } else { 2 }, false)), 2_000_000, 40_000_000, true);
   add("c07_at_forms", vec!["C07", "C08"], "delay_at, delay_at_threads, delay_subscription_at, timer_at, interval_at: requested delay = time remaining until the instant (real clock, instants now-5s / now / now+10s / now+1000s, tolerance 2 s)", |_| "6 operators x 4 instants".to_string(), Box::new(|_| c07_at_forms()), 10_000, 10_000, false);
-  add("c02_sched", vec!["C02"], "scheduler operators: unsubscribe()/guard drop at every point of the script and of the virtual-time line, then every executor order drained and the clock advanced past every deadline", b7, Box::new(|t| c07_run(false, if t { 3 } else { 2 }, true)), 2_000_000, 40_000_000, true);
-  add("c02_sched_threads", vec!["C02"], "same for the _threads forms", b7, Box::new(|t| c07_run(true, if t { 3 } else { 2 }, true)), 2_000_000, 40_000_000, true);
+  add("c02_sched", vec!["C02", "C19"], "scheduler operators: unsubscribe()/guard drop at every point of the script and of the virtual-time line, then every executor order drained and the clock advanced past every deadline", b7, Box::new(|t| c07_run(false, if t { 3 } else { 2 }, true)), 2_000_000, 40_000_000, true);
+  add("c02_sched_threads", vec!["C02", "C19"], "same for the _threads forms", b7, Box::new(|t| c07_run(true, if t { 3 } else { 2 }, true)), 2_000_000, 40_000_000, true);
   v
 }
 
@@ -1105,6 +1105,10 @@ fn c19_tasks(ntasks: usize) {
           e::fail("task/ran-early", || format!("task {} ran at t={} but was not due before t={}", id, t, first_allowed));
         }
       }
+      // a subscribing task's handle is closed only when what it produced is closed
+      if matches!(k, K::Sub) && !cancelled[id] && closed_q[id]() && world::counter(40 + id) == 0 {
+        e::fail("task/handle-closed-while-its-product-is-live", || format!("the handle of subscribing task {} reports is_closed() although the subscription the task produced is still open", id));
+      }
       // a handle that reported closed: its task can no longer act
       if !cancelled[id] {
         if let Some(r) = closed_seen_runs[id] {
@@ -1333,7 +1337,7 @@ pub fn harnesses2() -> Vec<HarnessDef> {
   add("c08_timer", vec!["C08"], "timer: item once, not before the due time, then complete", |_| "delays 0..3; 4 optional-run steps of 0..2 then drain".to_string(), Box::new(|_| c08_timer()), 2_000_000, 2_000_000, false);
   add("c08_async", vec!["C08", "C13"], "from_future, from_future_result, from_stream, from_stream_result relay exactly the scripted values / error, nothing before the executor runs", |t| format!("futures pending 0..2 polls; streams of <= {} items each pending 0..1 polls, error at every position", if t { 4 } else { 3 }), Box::new(|t| c08_async(if t { 4 } else { 3 })), 2_000_000, 20_000_000, false);
   add("c09_rate", vec!["C09", "C01"], "debounce, throttle/throttle_time x {leading, tailing, all}, sample(interval), buffer_with_time, buffer_with_count_and_time on the virtual clock: only source items, at most once, in order; exact timed models for debounce and throttle; buffer laws", |t| format!("<= {} symbolic items with gaps 0..3; windows 1..2; at every instant timers-first or source-first; executor timely or late; LocalPool and ANY-order", if t { 4 } else { 3 }), Box::new(|t| c09_rate(if t { 4 } else { 3 })), 3_000_000, 40_000_000, true);
-  add("c13_rate_twin", vec!["C13"], "scheduler-using operators (debounce, throttle x3, sample, buffer_with_time, buffer_with_count_and_time): a clone of the same operator value subscribed a second time over its own hot input must not change the first subscription's output (no handle / buffer / window shared between subscriptions)", |t| format!("<= {} symbolic items; the twin's input gets an item right before each of ours", if t { 4 } else { 3 }), Box::new(|t| c09_rate_x(if t { 4 } else { 3 }, true)), 400_000, 40_000_000, true);
+  add("c13_rate_twin", vec!["C13", "C09"], "scheduler-using operators (debounce, throttle x3, sample, buffer_with_time, buffer_with_count_and_time): a clone of the same operator value subscribed a second time over its own hot input must not change the first subscription's output (no handle / buffer / window shared between subscriptions)", |t| format!("<= {} symbolic items; the twin's input gets an item right before each of ours", if t { 4 } else { 3 }), Box::new(|t| c09_rate_x(if t { 4 } else { 3 }, true)), 400_000, 40_000_000, true);
   add("c19_tasks", vec!["C19"], "schedule(): one-shot, subscribing and repeating tasks; cancellation at every point; run orders; never early, at most once / consecutive seq, nothing after unsubscribe() returned", |t| format!("{} tasks; delays none/0/1/2; periods 1..2; LocalPool and ANY-order", if t { 3 } else { 2 }), Box::new(|t| c19_tasks(if t { 3 } else { 2 })), 700_000, 40_000_000, true);
   add("c16_producers", vec!["C16"], "interval / from_iter(counting) / from_stream(endless) under intermediate operators and every early-terminating operator, producer in main and notifier position: no live task one period after the terminal, pulls bounded", |t| format!("{} intermediate operators; periods 1..2", if t { 2 } else { 1 }), Box::new(|t| c16_producers(if t { 2 } else { 1 })), 2_000_000, 20_000_000, true);
   v
